@@ -393,8 +393,8 @@ def _run_link(case, ghost):
 
 
 def run_impl(case):
-    gc.collect()        # drop the previous case's objects so that object ids get reused
     if case.get("mem") is not None:
+        gc.collect()    # drop earlier objects so that object ids get reused (only matters for spill file names)
         # an earlier coupling in the same process, same adapter kind and spill directory, other payloads:
         # what it stored must never show up in the link under test
         _run_link(case, ghost=True)
